@@ -20,8 +20,11 @@ type CompScn struct {
 	Decl  int      `json:"decl"`
 	POpts []string `json:"popts"`
 	Words []S      `json:"words"`
-	Tags  []string `json:"tags"`
-	Obs   *CompObs `json:"obs,omitempty"`
+	// LateGroup: the top-level groups marked late are added to the parser (AddGroup) after a first completion of the same
+	// words; the judged completion is the second one
+	LateGroup bool     `json:"lateGroup"`
+	Tags      []string `json:"tags"`
+	Obs       *CompObs `json:"obs,omitempty"`
 }
 
 type CompObs struct {
@@ -39,7 +42,7 @@ type CompObs struct {
 
 func runCompletionOnce(t *Tree, sc *CompScn) *CompObs {
 	obs := &CompObs{Items: []S{}, Accept: []string{}}
-	b := Build(t, poptsOf(sc.POpts))
+	b := buildWith(t, poptsOf(sc.POpts), true, sc.LateGroup)
 	if b.err != nil {
 		obs.Panic = true
 		obs.PanicMsg = toS("setup: " + b.err.Error())
@@ -59,6 +62,15 @@ func runCompletionOnce(t *Tree, sc *CompScn) *CompObs {
 		words[i] = w.String()
 	}
 	os.Setenv("GO_FLAGS_COMPLETION", "1")
+	if sc.LateGroup {
+		func() {
+			defer func() { recover() }()
+			b.p.ParseArgs(words)
+		}()
+		b.AttachLate()
+		obs.Called = false
+		items = nil
+	}
 	var rest []string
 	var err error
 	func() {
@@ -96,7 +108,18 @@ func runCompletionOnce(t *Tree, sc *CompScn) *CompObs {
 			obs.Accept = append(obs.Accept, "skip")
 			continue
 		}
-		b2 := Build(t, poptsOf(sc.POpts))
+		b2 := buildWith(t, poptsOf(sc.POpts), true, sc.LateGroup)
+		if sc.LateGroup && b2.err == nil {
+			func() {
+				defer func() { recover() }()
+				so, se := os.Stdout, os.Stderr
+				os.Stdout, os.Stderr = capOut, capErr
+				b2.p.ParseArgs([]string{})
+				os.Stdout, os.Stderr = so, se
+			}()
+			b2.AttachLate()
+			b2.log.evs = nil
+		}
 		o2 := emptyObs()
 		func() {
 			defer func() {
@@ -227,5 +250,10 @@ func genCompletion(r *rand.Rand, t *Tree, id int) *CompScn {
 	}
 	words = append(words, last)
 	sc.Words = toSs(words)
+	for _, g := range t.Root.Extra {
+		if g.Late {
+			sc.LateGroup = chance(r, 0.5)
+		}
+	}
 	return sc
 }
